@@ -205,7 +205,28 @@ static uint64_t op_roots (int v) { mpz_t r, s; uint64_t h; int e; mpz_init (r); 
 static uint64_t op_jacobi (int v) { int a = mpz_jacobi (S(2 + (v & 1)), S(3)), b = mpz_kronecker_ui (S(1), 1000003), c = mpz_legendre (S(0), S(10)); uint64_t h = H0; h = fnv (h, &a, sizeof a); h = fnv (h, &b, sizeof b); return fnv (h, &c, sizeof c); }
 static uint64_t op_misc (int v) { mpz_t r; uint64_t h; char buf[64]; size_t cnt; unsigned long m; mpz_init (r); m = mpz_remove (r, S(8), S(11)); h = dz (H0, r); h = fnv (h, &m, sizeof m); mpz_export (buf, &cnt, 1, 4, 1 - 2 * (v & 1), 3, S(0)); h = fnv (h, buf, cnt * 4); mpz_import (r, cnt, 1, 4, 1 - 2 * (v & 1), 3, buf); h = dz (h, r); mpz_lcm (r, S(1), S(8)); h = dz (h, r); mpz_invert (r, S(10), S(1)); h = dz (h, r); mpz_clear (r); return h; }
 
+/* more menu entries: one per further code path that could hide a static buffer (size regimes, bases, conversions) */
+static uint64_t op_mul_chunked (int v) { mpz_t r; uint64_t h; mpz_init (r); mpz_mul (r, S(4 + (v & 1)), S(1)); h = dz (H0, r); mpz_mul (r, S(0), S(6)); h = dz (h, r); mpz_clear (r); return h; }   /* un > 500, vn < KARATSUBA: chunked schoolbook */
+static uint64_t op_mul_unbalanced (int v) { mpz_t r; uint64_t h; mpz_init (r); mpz_mul (r, S(4), S(2 + (v & 1))); h = dz (H0, r); mpz_mul (r, S(6), S(4 + (v & 1))); h = dz (h, r); mpz_mul (r, S(2), S(8)); h = dz (h, r); mpz_clear (r); return h; }   /* toom42/32/53, unbalanced FFT */
+static uint64_t op_mul_ui_addmul (int v) { mpz_t r; uint64_t h; mpz_init (r); mpz_mul_ui (r, S(2), 12345 + v); mpz_addmul (r, S(8), S(9)); mpz_submul_ui (r, S(3), 77); mpz_mul_2exp (r, r, 65 + v); mpz_mul_si (r, r, -3); h = dz (H0, r); mpz_clear (r); return h; }
+static uint64_t op_div_big (int v) { mpz_t q, r; uint64_t h; mpz_init (q); mpz_init (r); mpz_tdiv_qr (q, r, S(6 + (v & 1)), S(4)); h = dz (dz (H0, q), r); mpz_cdiv_q (q, S(6), S(2)); h = dz (h, q); mpz_mod (r, S(4), S(8)); h = dz (h, r); mpz_divexact (q, S(2), S(2)); h = dz (h, q); { unsigned long u = mpz_fdiv_ui (S(4), 1000003); h = fnv (h, &u, sizeof u); } mpz_clear (q); mpz_clear (r); return h; }
+static uint64_t op_str_bases (int v) { static const int bs[3] = { 3, 16, 62 }; char *s = mpz_get_str (0, bs[v % 3], S(2)); uint64_t h = fnv (H0, s, strlen (s)); mpz_t r; void (*fr) (void *, size_t); mpz_init (r); mpz_set_str (r, s, bs[v % 3]); h = dz (h, r); mp_get_memory_functions (0, 0, &fr); fr (s, strlen (s) + 1); s = mpz_get_str (0, -36, S(8)); h = fnv (h, s, strlen (s)); fr (s, strlen (s) + 1); { size_t n = mpz_sizeinbase (S(4), 10); h = fnv (h, &n, sizeof n); } mpz_clear (r); return h; }
+static uint64_t op_printf_float (int v) { char buf[400]; mpf_t f; int n; uint64_t h; mpf_init2 (f, 256); mpf_set_z (f, S(0)); mpf_div_ui (f, f, 7 + v); n = gmp_snprintf (buf, sizeof buf, "%.12Fe|%Fg|%.5Ff|%Fa", f, f, f, f); h = fnv (H0, buf, strlen (buf)); h = fnv (h, &n, sizeof n); mpf_mul_2exp (f, f, 300 + v); mpf_ui_div (f, 1, f); n = gmp_snprintf (buf, sizeof buf, "%30.20Fe|%FE|%#Fg", f, f, f); h = fnv (h, buf, strlen (buf)); mpf_clear (f); return h; }
+static uint64_t op_mpf_more (int v) { mpf_t a, b; mpz_t z; mpq_t q; uint64_t h; double d; mp_exp_t e; char *s; void (*fr) (void *, size_t); mpf_init2 (a, 300); mpf_init2 (b, 300); mpz_init (z); mpq_init (q); mpf_set_str (a, "3.14159265358979323846264338327950288e10", 10); mpf_set_d (b, 1.5 + v); mpf_sub (a, a, b); mpf_mul (a, a, a); mpf_ui_sub (b, 7, a); mpf_floor (b, b); mpf_set_q (b, q); mpf_add_ui (a, a, 5); d = mpf_get_d (a); h = fnv (H0, &d, sizeof d); mpz_set_f (z, a); h = dz (h, z); s = mpf_get_str (0, &e, 16, 0, a); h = fnv (h, s, strlen (s)); mp_get_memory_functions (0, 0, &fr); fr (s, strlen (s) + 1); mpf_clear (a); mpf_clear (b); mpz_clear (z); mpq_clear (q); return h; }
+static uint64_t op_mpq_more (int v) { mpq_t a, b; uint64_t h; char *s; void (*fr) (void *, size_t); double d; mpq_init (a); mpq_init (b); mpq_set_str (a, v ? "-123456789012345678901234567890/987654321987654321" : "22/7", 10); mpq_canonicalize (a); mpq_set_z (b, S(0)); mpq_sub (b, a, b); mpq_mul_2exp (b, b, 70); mpq_div_2exp (b, b, 3); d = mpq_get_d (b); h = fnv (H0, &d, sizeof d); s = mpq_get_str (0, 10, b); h = fnv (h, s, strlen (s)); mp_get_memory_functions (0, 0, &fr); fr (s, strlen (s) + 1); { int c = mpq_cmp (a, b); h = fnv (h, &c, sizeof c); } mpq_clear (a); mpq_clear (b); return h; }
+static uint64_t op_streams (int v) { char mem[4096]; FILE *fp = fmemopen (mem, sizeof mem, "w+"); mpz_t r; mpq_t q; uint64_t h; size_t n; mpz_init (r); mpq_init (q); n = mpz_out_str (fp, 10, S(1)); fputc (' ', fp); n += mpz_out_raw (fp, S(8 + (v & 1))); fflush (fp); h = fnv (H0, mem, n + 1); rewind (fp); n = mpz_inp_str (r, fp, 10); h = dz (h, r); fgetc (fp); n = mpz_inp_raw (r, fp); h = dz (h, r); h = fnv (h, &n, sizeof n); fclose (fp); fp = fmemopen (mem, sizeof mem, "w+"); gmp_fprintf (fp, "%Zx %Qd", S(0), q); fflush (fp); rewind (fp); gmp_fscanf (fp, "%Zx", r); h = dz (h, r); fclose (fp); mpz_clear (r); mpq_clear (q); return h; }
+static uint64_t op_bits (int v) { mpz_t r; uint64_t h; unsigned long u; mpz_init (r); mpz_and (r, S(2), S(3)); mpz_ior (r, r, S(8)); mpz_xor (r, r, S(4)); mpz_com (r, r); mpz_setbit (r, 100000 + v); mpz_clrbit (r, 5); mpz_combit (r, 64); h = dz (H0, r); u = mpz_popcount (S(4)); h = fnv (h, &u, sizeof u); u = mpz_hamdist (S(2), S(3)); h = fnv (h, &u, sizeof u); u = mpz_scan1 (S(4), 1000 + v); h = fnv (h, &u, sizeof u); u = mpz_scan0 (S(4), 77); h = fnv (h, &u, sizeof u); mpz_clear (r); return h; }
+static uint64_t op_sqrt_big (int v) { mpz_t r, s; uint64_t h; int e; mpz_init (r); mpz_init (s); mpz_sqrtrem (r, s, S(4 + (v & 1))); h = dz (dz (H0, r), s); mpz_rootrem (r, s, S(2), 5 + v); h = dz (dz (h, r), s); e = mpz_perfect_square_p (S(2)); h = fnv (h, &e, sizeof e); mpz_pow_ui (r, S(0), 17 + v); h = dz (h, r); mpz_ui_pow_ui (r, 3 + v, 500); h = dz (h, r); mpz_clear (r); mpz_clear (s); return h; }
+static uint64_t op_gcd_big (int v) { mpz_t g, s; uint64_t h; int j; mpz_init (g); mpz_init (s); mpz_gcd (g, S(4), S(5 - (v & 1))); h = dz (H0, g); mpz_gcdext (g, s, 0, S(4), S(2)); h = dz (dz (h, g), s); mpz_invert (g, S(3), S(5)); h = dz (h, g); j = mpz_jacobi (S(4), S(5)); h = fnv (h, &j, sizeof j); { unsigned long u = mpz_gcd_ui (0, S(2), 360360); h = fnv (h, &u, sizeof u); } mpz_clear (g); mpz_clear (s); return h; }
+static uint64_t op_powm_even (int v) { mpz_t r, m; uint64_t h; mpz_init (r); mpz_init (m); mpz_mul_2exp (m, S(8), 64 + v); mpz_powm (r, S(1), S(0), m); h = dz (H0, r); mpz_mul_2exp (m, S(9), 1); mpz_powm (r, S(0), S(11), m); h = dz (h, r); mpz_set (m, S(2)); mpz_powm_ui (r, S(3), 65537, m); h = dz (h, r); mpz_clear (r); mpz_clear (m); return h; }
+static uint64_t op_rand_mpf_mpn (int v) { gmp_randstate_t rs; mpf_t f; mp_limb_t buf[40]; mpz_t r; uint64_t h = H0; int i; gmp_randinit_default (rs); gmp_randseed_ui (rs, 1234 + v); mpf_init2 (f, 256); mpz_init (r); for (i = 0; i < 4; i++) { mpf_urandomb (f, rs, 200); h = fnv (h, f->_mp_d, (f->_mp_size < 0 ? -f->_mp_size : f->_mp_size) * sizeof (mp_limb_t)); mpn_urandomb (buf, rs, 40 * 64 - 3); h = fnv (h, buf, sizeof buf); mpn_rrandom (buf, rs, 20); h = fnv (h, buf, 20 * sizeof (mp_limb_t)); { unsigned long u = gmp_urandomb_ui (rs, 47); h = fnv (h, &u, sizeof u); } } mpf_clear (f); mpz_clear (r); gmp_randclear (rs); return h; }
+static uint64_t op_conv (int v) { mpz_t r; uint64_t h; double d; long e; unsigned long u; mpz_init (r); d = mpz_get_d (S(2)); h = fnv (H0, &d, sizeof d); d = mpz_get_d_2exp (&e, S(4)); h = fnv (h, &d, sizeof d); h = fnv (h, &e, sizeof e); mpz_set_d (r, 1e300 + v); h = dz (h, r); u = mpz_get_ui (S(0)); h = fnv (h, &u, sizeof u); { int c = mpz_cmp_d (S(2), 1e40), f = mpz_fits_slong_p (S(10)), g = mpz_cmp (S(2), S(3)); h = fnv (h, &c, sizeof c); h = fnv (h, &f, sizeof f); h = fnv (h, &g, sizeof g); } mpz_set_si (r, -77 - v); mpz_abs (r, r); mpz_neg (r, r); mpz_add (r, r, S(4)); mpz_sub_ui (r, r, 5); h = dz (h, r); mpz_clear (r); return h; }
+
 static const struct { const char *name; opfn f; } MENU[] = {
+  { "mul_chunked_schoolbook", op_mul_chunked }, { "mul_unbalanced_toom_fft", op_mul_unbalanced }, { "mul_ui_addmul_submul", op_mul_ui_addmul }, { "div_big_cdiv_mod_divexact", op_div_big },
+  { "str_bases_3_16_62", op_str_bases }, { "printf_float_e_g_f_a", op_printf_float }, { "mpf_set_str_sub_mul_get", op_mpf_more }, { "mpq_set_str_2exp_get_str", op_mpq_more },
+  { "streams_out_inp_str_raw_fprintf_fscanf", op_streams }, { "bitwise_scan_popcount", op_bits }, { "sqrt_rootrem_pow", op_sqrt_big }, { "gcd_gcdext_invert_jacobi_big", op_gcd_big },
+  { "powm_even_modulus", op_powm_even }, { "random_mpf_mpn_private", op_rand_mpf_mpn }, { "conversions_compare", op_conv },
   { "mul_small", op_mul_small }, { "mul_toom_heap_scratch", op_mul_toom }, { "mul_fft", op_mul_fft }, { "sqr", op_sqr }, { "tdiv_qr", op_tdiv }, { "gcdext", op_gcdext },
   { "powm", op_powm }, { "get_str", op_get_str }, { "set_str", op_set_str }, { "fac_2fac_primorial", op_fac }, { "fib_lucnum", op_fib }, { "bin_mfac", op_bin },
   { "nextprime", op_nextprime }, { "probab_prime_p", op_pprime }, { "likely_prime_private_state", op_likely }, { "random_mt_private", op_rand_mt }, { "random_lc_private_copy", op_rand_lc },
